@@ -293,9 +293,11 @@ def _kamb_radius(n, σ, axial):
     return 1 - 2 * r
 
 
-def _kamb_units(n, radius):
+def _kamb_units(n, radius, axial=True):
     """Normalization function for Kamb-style counting."""
-    return np.sqrt(n * radius * (1 - radius))
+    # Expected fraction of the counting (hemi)sphere that lies within the radius.
+    fraction = 1 - radius if axial is True else (1 - radius) / 2
+    return np.sqrt(n * fraction * (1 - fraction))
 
 
 def exponential_kamb(cos_dist, σ=10, axial=True):
@@ -319,7 +321,7 @@ def linear_inverse_kamb(cos_dist, σ=10, axial=True):
     f = 2 / (1 - radius)
     cos_dist = cos_dist[cos_dist >= radius]
     count = f * (cos_dist - radius)
-    return count, _kamb_units(n, radius)
+    return count, _kamb_units(n, radius, axial=axial)
 
 
 def square_inverse_kamb(cos_dist, σ=10, axial=True):
@@ -329,7 +331,7 @@ def square_inverse_kamb(cos_dist, σ=10, axial=True):
     f = 3 / (1 - radius) ** 2
     cos_dist = cos_dist[cos_dist >= radius]
     count = f * (cos_dist - radius) ** 2
-    return count, _kamb_units(n, radius)
+    return count, _kamb_units(n, radius, axial=axial)
 
 
 def kamb_count(cos_dist, σ=10, axial=True):
@@ -337,7 +339,7 @@ def kamb_count(cos_dist, σ=10, axial=True):
     n = float(cos_dist.size)
     dist = _kamb_radius(n, σ, axial=axial)
     count = (cos_dist >= dist).astype(float)
-    return count, _kamb_units(n, dist)
+    return count, _kamb_units(n, dist, axial=axial)
 
 
 def schmidt_count(cos_dist, axial=None):
